@@ -103,6 +103,17 @@ def seg_pairs(tier, seed, workers=16):
     ncfg = 10 if tier == "quick" else 60
     algs = ["batch", "queue", "plan", "greedy", "batch"]
     cfgs = [gen.random_cfg(rng, alg=algs[i % len(algs)], family="roomy" if i % 4 else "tight") for i in range(ncfg)]
+    # ... and some whose tasks are lengthened by a real, seeded DelayModel (the
+    # draws are not part of the specification: these runs are compared as pairs
+    # only, they are not handed to TraceSim)
+    drawn = set()
+    for j in range(max(2, ncfg // 4)):
+        c = fan_cfg(rng, ["batch", "queue"][j % 2])
+        c.pop("extra", None)
+        c["realDelay"] = {"prob": rng.choice([0.3, 0.5]), "dist": rng.choice(["normal", "poisson", "uniform"]),
+                          "degree": rng.choice(["MID", "HIGH"]), "seed": rng.choice([20, 3, 0])}
+        cfgs.append(gen.normalise(c))
+        drawn.add(len(cfgs) - 1)
     with ProcessPoolExecutor(max_workers=workers) as ex:
         plains = list(ex.map(seg_job, [(c, None) for c in cfgs], chunksize=2))
         jobs, owner = [], []
@@ -126,7 +137,7 @@ def seg_pairs(tier, seed, workers=16):
         # a resume past completion): judged as traces only
         past = []
         for ci, (c, p) in enumerate(zip(cfgs, plains)):
-            if p["end"]["completed"]:
+            if p["end"]["completed"] and ci not in drawn:
                 T = p["end"]["t"] // c.get("K", 1)
                 past.append((c, [T + 3]))
                 past.append((c, [max(1, T // 2), "end", "past"]))
@@ -144,6 +155,8 @@ def seg_pairs(tier, seed, workers=16):
             canon_plain[ci] = canon(plains[ci])
         pairs.append({"a": canon_plain[ci], "b": canon(tr), "refusals": [],
                       "what": {"cfg": cfgs[ci], "segs": tr["segs"]}})
+        if ci in drawn:
+            continue
         t2 = dict(tr)
         t2["steps"] = runsim.delta_encode([dict(s) for s in tr["steps"]])
         t2["tag"] = "seg"
